@@ -1264,7 +1264,8 @@ func pickIdlePieces(t *Torrent, count int) {
 		for _, p := range t.peers {
 			fast := p.GetFast()
 			for _, i := range fast {
-				if !t.Pieces.Complete(i) && p.GetHave(i) {
+				if i < uint32(maxp) &&
+					!t.Pieces.Complete(i) && p.GetHave(i) {
 					if add(i) {
 						return
 					}
